@@ -295,6 +295,19 @@ is used, else `step_<labels of the sorted used parameters joined by '.'>` -/
 def instName (step : Str) (used : List Str) (c : Combo) : Str :=
   if used.isEmpty then step else step ++ ['_'] ++ c.paramString used
 
+/-- what `$(m.workspace)` stands for in an unparameterised step: the root directory of a funnel
+parent, else the recorded workspace of the step `m` -/
+def resolveFlat (spec : Spec) (hubD : List Str) (workspaces : List (Str × Str)) (m : Str) : Except Err Str :=
+  if hubD.contains m then .ok (makeSafePath spec.root [m]) else wsOf workspaces m
+
+/-- what `$(m.workspace)` stands for in the instance for combination `c`: the root directory of a
+funnel parent, else the recorded workspace of `m`'s instance for the same combination -/
+def resolveRow (spec : Spec) (hubD : List Str) (workspaces : List (Str × Str))
+    (usedTbl : List (Str × List Str)) (c : Combo) (m : Str) : Except Err Str :=
+  if hubD.contains m then .ok (makeSafePath spec.root [m])
+  else if (getAssoc usedTbl m).isEmpty then wsOf workspaces m
+  else wsOf workspaces (m ++ ['_'] ++ c.paramString (getAssoc usedTbl m))
+
 /-- one iteration of `for combo in self.parameters` for a parameterised step (`used` = its used
 parameters, already recorded in `s.used`) -/
 def stageRow (spec : Spec) (ord : List Str → List Str) (st : Step) (used : List Str) (s : SS) (row : Nat) :
@@ -313,11 +326,7 @@ def stageRow (spec : Spec) (ord : List Str → List Str) (st : Step) (used : Lis
   if s.combos.any (·.1 == iname) then .ok s       -- `if combo_str in self.step_combos: continue`
   else
     let s := { s with combos := setAssoc s.combos step (union (getAssoc s.combos step) [iname]) }
-    let resolve : Str → Except Err Str := fun m =>
-      if hubD.contains m then .ok (makeSafePath spec.root [m])
-      else if (getAssoc s.used m).isEmpty then wsOf s.workspaces m
-      else wsOf s.workspaces (m ++ ['_'] ++ c.paramString (getAssoc s.used m))
-    match substWs resolve usedSpaces (c.apply st.cmd, c.apply st.restart) with
+    match substWs (resolveRow spec hubD s.workspaces s.used c) usedSpaces (c.apply st.cmd, c.apply st.restart) with
     | .error e => .error e
     | .ok (cmd, r) =>
       let wsTok := "$(WORKSPACE)".toList
@@ -350,9 +359,7 @@ def stageStep (spec : Spec) (ord : List Str → List Str) (s : SS) (st : Step) :
       let s := { s with combos := setAssoc s.combos step [step] }
       let workspace := makeSafePath spec.root [step]
       let s := { s with workspaces := s.workspaces.filter (fun (e : Str × Str) => e.1 != step) ++ [(step, workspace)] }
-      let resolve : Str → Except Err Str := fun m =>
-        if hubD.contains m then .ok (makeSafePath spec.root [m]) else wsOf s.workspaces m
-      match substWs resolve usedSpaces (st.cmd, st.restart) with
+      match substWs (resolveFlat spec hubD s.workspaces) usedSpaces (st.cmd, st.restart) with
       | .error e => .error e
       | .ok (cmd, r) =>
         let wsTok := "$(WORKSPACE)".toList
